@@ -914,6 +914,32 @@ def _family(u, names):
     return out
 
 
+def _behind_opaque_test(u, fn, node):
+    """name of a unit function h such that the CFG node holding `node` is reachable only through an edge of a branch / switch whose
+    condition calls h with a character-pointer argument; None otherwise"""
+    cfg = fn.cfg()
+    nd = cfg.node_of_expr(node['id']) if isinstance(node, dict) and 'id' in node else None
+    if nd is None:
+        return None
+    found = []
+
+    def opaque(nn, l):
+        if nn.kind not in ('branch', 'switch') or l is None or nn.expr is None:
+            return False
+        for c in walk(nn.expr):
+            if c.get('k') == 'call' and callee_name(c) in u.functions and callee_name(c) != fn.name:
+                for a in c.get('args', []):
+                    t = u.ty(a.get('ty0', a['ty'])) if a.get('ty') is not None else {}
+                    if t.get('c') == 'ptr' and 'char' in t.get('s', ''):
+                        found.append(callee_name(c))
+                        return True
+        return False
+    from .common import guarded_by
+    if guarded_by(cfg, nd.id, opaque) and found:
+        return found[0]
+    return None
+
+
 def _run(u, names, R, floor):
     for n_ in names:
         if n_ not in u.functions:
@@ -929,6 +955,12 @@ def _run(u, names, R, floor):
         an = Analyzer3(u, fn, assume, reqs)
         for (rule, node, what, ok, detail, key) in an.run():
             n += 1
+            if not ok and node is not None and _behind_opaque_test(u, fn, node):
+                # the site is reached only through a decision made by a function of this unit that was handed the cursor
+                # (switch (classify(json))): what its result says about the bytes there is not something this engine derives
+                broken.append('BND3: %s: %s - the bytes at the cursor were examined by %s, whose verdict decides whether this is '
+                              'reached; that is not modelled' % (fn.where(node), what, _behind_opaque_test(u, fn, node)))
+                continue
             R.ob(rule, fn, node, what, ok, detail, key=key)
         if an.broken:
             broken.append(an.broken)
